@@ -191,12 +191,18 @@ func ReadState(st *stor.Stor, off uint64) *DbState {
 }
 
 func readState(st *stor.Stor, off uint64) (offSchema, offInfo uint64, t int64) {
-	buf := st.Data(off)[:stateLen]
+	buf := st.Data(off)
+	if len(buf) < stateLen {
+		return 0, 0, 0
+	}
+	buf = buf[:stateLen]
 	i := len(magic1)
 	if string(buf[:i]) != magic1 {
 		return 0, 0, 0
 	}
-	cksum.MustCheck(buf[:magic2at])
+	if !cksum.Check(buf[:magic2at]) {
+		return 0, 0, 0
+	}
 	if string(buf[magic2at:magic2at+len(magic2)]) != magic2 {
 		return 0, 0, 0
 	}
